@@ -1,5 +1,6 @@
 import PandoraModel.Properties.C11
 import PandoraModel.Properties.C11Kernels
+import PandoraModel.Properties.C11KernelsSteps
 open Pandora.C11
 #print axioms armCoded_eq_armRef
 #print axioms crossSupport_eq_crossRef
@@ -33,3 +34,11 @@ open Pandora.C11
 #print axioms Pandora.C11Kernels.crossSupport_generated_eq_source
 #print axioms Pandora.C11Kernels.crossSupport_generated_spec
 #print axioms Pandora.C11Kernels.crossSupport_generated_total
+-- the integral-image kernels regenerated from the Python source (Generated/KernelsCbcaSteps.lean, T14 array-state kernels)
+-- are the hand model
+#print axioms Pandora.C11KernelsSteps.forLoop_inv
+#print axioms Pandora.C11KernelsSteps.cbcaStep1_generated_eq
+#print axioms Pandora.C11KernelsSteps.cbcaStep3_generated_eq
+#print axioms Pandora.C11KernelsSteps.cbcaStep2_generated_eq
+#print axioms Pandora.C11KernelsSteps.cbcaStep4_generated_eq
+#print axioms Pandora.C11KernelsSteps.cbcaSteps_generated_chain
